@@ -126,6 +126,14 @@ def corpus():
     out.append(_case(U_F, [3], [["fetch", 4, False, "push"], ["fetch", 5, False, "push"]]))
     out.append(_case(U_F, [3], [["fetch", 4, False, "fetch"], ["fetch", 6, False, "pull"]], tv="smart"))
     out.append(_case(U_F, [2], [["commit", 4], ["fetch", 3, False, "fetch"], ["fetch", 6, True, "fetch"]], sv="smart"))
+    # pull over the smart server from a stacked source (its revisions live in ITS fallback): the parent inventories
+    # the sink asks for cannot be supplied -> the write group must be refused, nothing written
+    out.append(_case(U_L, [2], [["fetch", 3, False, "pull_ss"], ["fetch", 3, False, "pull"]], sv="smart"))
+    out.append(_case(U_M, [1], [["fetch", 6, False, "pull_ss"]], sv="smart"))
+    out.append(_case(U_F, [1], [["fetch", 5, False, "pull_ss"], ["fetch", 6, False, "push"]], sv="smart"))
+    out.append(_case(U_L, [5], [["fetch", 3, False, "pull_ss"]], sv="smart"))            # nothing to copy
+    # (not generated: a stacked target that already holds the LEFT parent -- see notes/C08.md, candidate finding
+    #  C08-unsupplied-parent-inventory-accepted; nor a smart TARGET, where the refusal surfaces as AssertionError)
     # regression inputs of the former finding C08-stacked-merge-commit-heads (merge commits into a stacked branch)
     out.append(_case(U_M, [0], [["commit", 1], ["commit", 2], ["commit", 3], ["commit", 4], ["commit", 5]], tv="smart"))
     out.append(_case(U_M, [2], [["fetch", 1, False, "fetch"], ["commit", 3], ["commit", 4], ["commit", 5]]))
@@ -145,6 +153,8 @@ def _simulate(case):
         if op[0] == "commit":
             if not (case.get("fb") and any(p >= n for p in g[op[1]])):
                 vis.add(op[1])
+        elif op[3] == "pull_ss":
+            pass
         elif op[3] == "all":
             vis |= set(range(n))
         elif op[1] < n:
@@ -183,11 +193,17 @@ def _random_case(rng, u):
             r = rng.randrange(n) if rng.random() < 0.7 else n - 1
             entry = "fetch"
             fg = rng.random() < 0.35
-            if daglib.lefthand_present(g, r) and rng.random() < 0.55:
+            if (daglib.lefthand_present(g, r) and sv == "smart" and tv == "local" and sf == "2a" and stacked and not ops
+                    and not any(p >= n for ps in g for p in ps) and sum(1 for ps in g if not ps) == 1
+                    and rng.random() < 0.6):
+                entry, fg = "pull_ss", False
+            elif daglib.lefthand_present(g, r) and rng.random() < 0.55:
                 entry, fg = rng.choice(["pull", "push"]), False
             elif rng.random() < 0.12:
                 entry = "all"
             ops.append(["fetch", r, fg, entry])
+            if entry == "pull_ss":
+                break            # may be refused: nothing after it relies on its outcome
             vis |= set(range(n)) if entry == "all" else C.anc_present(g, set(), [r])
     return _case(u, fb, ops, sf, sv, tv, stacked)
 
@@ -307,6 +323,8 @@ def distribution(inputs, observations):
         inc("via %s->%s" % (c["src_via"], c["tgt_via"]))
         inc("ops %d" % len(c["ops"]))
         for k, op in enumerate(c["ops"]):
+            if isinstance(o, dict) and k >= len(o["model"]["steps"]):
+                continue
             nm = "commit" if op[0] == "commit" else "%s%s" % (op[3], " find_ghosts" if op[2] and op[3] != "all" else "")
             inc("op " + nm)
             if isinstance(o, dict):
